@@ -218,6 +218,8 @@ FnApps(P) ==
     Fn1("number", P), Fn1("boolean", P), Fn1("not", P), Fn1("normalize-space", P), Fn1("string-length", P),
     Fn2("concat", P, StrL("s")), Fn2("contains", P, StrL("1")), Fn2("starts-with", P, StrL("a")),
     Fn2("substring", P, NumL(2)), Fn3("substring", P, NumL(1), NumL(1)), Fn3("translate", P, StrL("12"), StrL("ab")),
+    \* a character repeated in the second argument: its FIRST occurrence decides ("121" -> "abc": 1 becomes a, never c)
+    Fn3("translate", P, [t |-> "str", v |-> <<49, 50, 49>>], StrL("abc")),
     Fn2("substring-before", P, StrL("2")), Fn2("substring-after", P, StrL("1")), Fn1("floor", P), Fn1("round", P),
     NegE(P), Bin("+", P, NumL(1)), Bin("*", P, P) }
 \* functions of the context node inside a predicate: //node()[f]
